@@ -286,3 +286,71 @@ def probe_F7(epg):
             out.append({"kind": "F7-probe", "probe": name, "problems": pr,
                         "input": {"ops": ["T(30,20)", "T(50,-10)"], "order1": d}})
     return out
+
+
+def compare_arraytuple(r, ncase):
+    """`common.ArrayTuple` (+, +=, *, *=, scalar forms, unary minus; parts given as python ints, 0-d / 1-d integer arrays or
+    None; equal and different lengths) vs the Lean definitions `ATuple.add / mul / addScalar / mulScalar / neg`, about which
+    `Props/C10Tuple.lean` proves that, with None read as zero, sums and products are exact and nothing accumulated is dropped"""
+    from epgpy import common
+
+    def part(v, form):
+        if v is None:
+            return None
+        return int(v) if form == 0 else (np.array(int(v)) if form == 1 else np.full(2, int(v)))
+
+    def tok(vals):
+        return "-" if len(vals) == 0 else ",".join("N" if v is None else str(int(v)) for v in vals)
+
+    def read(t):
+        out = []
+        for e in t:
+            if e is None:
+                out.append(None)
+            else:
+                a = np.asarray(e)
+                if a.ndim and not np.all(a == a.flat[0]):
+                    return "mixed"
+                out.append(int(a.flat[0]) if a.ndim else int(a))
+        return "tup " + tok(out)
+
+    lines, expect, inputs = [], [], []
+    for _ in range(ncase):
+        n = int(r.integers(0, 4))
+        m = n if r.random() < 0.85 else int(r.integers(0, 4))
+        xs = [None if r.random() < 0.35 else int(r.integers(-5, 6)) for _ in range(n)]
+        ys = [None if r.random() < 0.35 else int(r.integers(-5, 6)) for _ in range(m)]
+        form = int(r.integers(3))
+        op = ["add", "iadd", "mul", "imul", "adds", "muls", "neg"][r.integers(7)]
+        c = int(r.integers(-4, 5))
+        x = common.ArrayTuple(part(v, form) for v in xs)
+        y = common.ArrayTuple(part(v, form) for v in ys)
+        try:
+            if op == "add":
+                z = x + y
+            elif op == "iadd":
+                z = x; z += y
+            elif op == "mul":
+                z = x * y
+            elif op == "imul":
+                z = x; z *= y
+            elif op == "adds":
+                z = x + c
+            elif op == "muls":
+                z = x * c
+            else:
+                z = -x
+            exp = read(z)
+        except ValueError:
+            exp = "err"
+        mop = {"iadd": "add", "imul": "mul"}.get(op, op)
+        lines.append(f"atup {mop} {tok(xs)} {c if op in ('adds', 'muls') else tok(ys) if op != 'neg' else 0}")
+        expect.append(exp); inputs.append({"op": op, "x": xs, "y": ys, "c": c, "form": ["int", "0-d array", "1-d array"][form]})
+    out = lib.run_driver(lines)
+    dis = []
+    for exp, got, inp in zip(expect, out, inputs):
+        if exp != got.strip():
+            dis.append({"kind": "c10-arraytuple", "problems": [("epgpy ArrayTuple vs the Lean model", exp, got)], "input": inp})
+    if len(out) != len(expect):
+        dis.append({"kind": "c10-arraytuple", "problems": [("driver lines", len(out), len(expect))], "input": {}})
+    return len(expect), dis
